@@ -79,6 +79,12 @@ def slotStep (s : St) (toks : List String) : IO (St × Bool) := do
       IO.println "ok"
       return ({ s.specAdd n (fun _ => zeroBytes n) with h := some ⟨t, h.update { bytes := ByteArray.empty, zeros := n }⟩ }, false)
     | none => IO.println "bad-op"; return (s, false)
+  | ["strf"], some ⟨t, h⟩ =>
+    -- p_crypto_hash_get_string whose result string cannot be allocated: the digest is finalised (and the object closed) as
+    -- by a successful read, NULL is returned
+    let (h', _) := h.getString
+    IO.println "null"
+    return ({ s with h := some ⟨t, h'⟩, read := true }, false)
   | ["str"], some ⟨t, h⟩ =>
     let (h', str) := h.getString
     let sp := (specDigest s t).map hexOf
